@@ -75,7 +75,9 @@ def gen_dict(rng, depth=0):
             # lists inside a list: independent items (observables of different ensembles, mixed with numbers, an empty list)
             d_k = {"ll": [{"v": gen_struct(rng, kinds=("obs",))}, {"v": gen_struct(rng, kinds=("obs",))}], "empty": rng.random() < 0.5, "scalar": rng.choice([1, "s", None, 2.5])}
         else:
-            d_k = {"p": rng.choice([1, "text", None, 2.5, True, [1, 2], [], {}, [[], {}], [1, [2, [3, []]]]])}
+            # plain values; strings that look like the writer's placeholders ("DICTOBS<n>...") may be refused at export
+            # (documented: "cannot be safely exported") but must never be written and then read back as something else
+            d_k = {"p": rng.choice([1, "text", None, 2.5, True, [1, 2], [], {}, [[], {}], [1, [2, [3, []]]], "xDICTOBS3", "DICTOBS0 is the pion", "DICTOBS12", ["DICTOBS1\n"]])}
         d[repr(k)] = {"key": k, "val": d_k}
     return d
 
